@@ -870,6 +870,9 @@ func CallsMethodNamed(name, recvSub string) func(*ssa.CallCommon) bool {
 // InstrIs adapts a CallCommon matcher to an instruction predicate.
 func InstrIs(m func(*ssa.CallCommon) bool) func(ssa.Instruction) bool {
 	return func(in ssa.Instruction) bool {
+		if _, isDefer := in.(*ssa.Defer); isDefer {
+			return false // a deferred call does not happen here
+		}
 		if c, ok := in.(ssa.CallInstruction); ok {
 			return m(c.Common())
 		}
